@@ -649,3 +649,191 @@ package command
 //@   exit require base:  call parseRawOptions(_) as (e) when ret == nil then e == nil
 //@   exit require ports: call parsePortRanges(bind_s) as (pr, e) when len(pre(o.rawPortRanges)) > 0 && ret == nil then s == pre(o.rawPortRanges) && e == nil && len(o.portRanges) >= len(pr) && (forall k int :: 0 <= k && k < len(pr) ==> o.portRanges[k] == pr[k])
 //@   exit require file:  call parsePortsFile(_) as (pr, e) when len(pre(o.portFile)) > 0 && ret == nil then e == nil && len(o.portRanges) >= len(pr) && (forall k int :: 0 <= k && k < len(pr) ==> o.portRanges[len(o.portRanges) - len(pr) + k] == pr[k])
+
+// ---------------------------------------------------------------------------------------------
+// remaining option plumbing
+//
+// target generator of the application scans: same choice as for the port scans
+//@ func (*genericScanCmdOpts).newIPPortGenerator
+//@   props C01 C02 C13 C08
+//@   opaque scan.NewIPGenerator, scan.NewPortGenerator, scan.NewIPPortGenerator, scan.NewFileIPPortGenerator, scan.NewFileIPGenerator, scan.NewFilterIPRequestGenerator
+//@   entry row subnet:  [call scan.NewIPGenerator() as (ig) ; call scan.NewPortGenerator() as (pg) ; call scan.NewIPPortGenerator(ig, pg) as (g)] when len(o.ipFile) == 0 && o.excludeIPs == nil && ret == g -> exit
+//@   entry row subnetx: [call scan.NewIPGenerator() as (ig) ; call scan.NewPortGenerator() as (pg) ; call scan.NewIPPortGenerator(ig, pg) as (g) ; call scan.NewFilterIPRequestGenerator(g, o.excludeIPs) as (f)] when len(o.ipFile) == 0 && o.excludeIPs != nil && ret == f -> exit
+//@   entry row pairs:   [call scan.NewFileIPPortGenerator(bind_of) as (g)] when len(o.ipFile) != 0 && len(o.portRanges) == 0 && o.excludeIPs == nil && ret == g
+//@                         && closureof(of, "(*genericScanCmdOpts).newIPPortGenerator$2") && capt(of, "o") == o -> exit
+//@   entry row pairsx:  [call scan.NewFileIPPortGenerator(bind_of) as (g) ; call scan.NewFilterIPRequestGenerator(g, o.excludeIPs) as (f)] when len(o.ipFile) != 0 && len(o.portRanges) == 0 && o.excludeIPs != nil && ret == f
+//@                         && closureof(of, "(*genericScanCmdOpts).newIPPortGenerator$2") && capt(of, "o") == o -> exit
+//@   entry row file:    [call scan.NewFileIPGenerator(bind_of) as (ig) ; call scan.NewPortGenerator() as (pg) ; call scan.NewIPPortGenerator(ig, pg) as (g)] when len(o.ipFile) != 0 && len(o.portRanges) != 0 && o.excludeIPs == nil && ret == g
+//@                         && closureof(of, "(*genericScanCmdOpts).newIPPortGenerator$3") && capt(of, "o") == o -> exit
+//@   entry row filex:   [call scan.NewFileIPGenerator(bind_of) as (ig) ; call scan.NewPortGenerator() as (pg) ; call scan.NewIPPortGenerator(ig, pg) as (g) ; call scan.NewFilterIPRequestGenerator(g, o.excludeIPs) as (f)] when len(o.ipFile) != 0 && len(o.portRanges) != 0 && o.excludeIPs != nil && ret == f
+//@                         && closureof(of, "(*genericScanCmdOpts).newIPPortGenerator$3") && capt(of, "o") == o -> exit
+
+// the file openers: the file named by --file, or standard input for "-" where a list of addresses is read
+//@ func (*genericScanCmdOpts).newIPPortGenerator$2
+//@   props C01 C13
+//@   observe os.Open
+//@   entry row open: [call os.Open(o.ipFile) as (f, e)] when ret1 == e && isptr(ret0, os.File) && asptr(ret0, os.File) == f -> exit
+//@ func (*genericScanCmdOpts).newIPPortGenerator$3
+//@   props C01 C13
+//@   observe os.Open, io.NopCloser
+//@   entry row stdin: [call io.NopCloser(bind_r) as (c)] when o.ipFile == "-" && isptr(r, os.File) && asptr(r, os.File) == os.Stdin && ret0 == c && ret1 == nil -> exit
+//@   entry row open:  [call os.Open(o.ipFile) as (f, e)] when o.ipFile != "-" && ret1 == e && isptr(ret0, os.File) && asptr(ret0, os.File) == f -> exit
+//@ func (*ipPortScanCmdOpts).newIPPortGenerator$2
+//@   props C01 C13
+//@   observe os.Open
+//@   entry row open: [call os.Open(o.ipFile) as (f, e)] when ret1 == e && isptr(ret0, os.File) && asptr(ret0, os.File) == f -> exit
+//@ func (*ipPortScanCmdOpts).newIPPortGenerator$3
+//@   props C01 C13
+//@   observe os.Open, io.NopCloser
+//@   entry row stdin: [call io.NopCloser(bind_r) as (c)] when o.ipFile == "-" && isptr(r, os.File) && asptr(r, os.File) == os.Stdin && ret0 == c && ret1 == nil -> exit
+//@   entry row open:  [call os.Open(o.ipFile) as (f, e)] when o.ipFile != "-" && ret1 == e && isptr(ret0, os.File) && asptr(ret0, os.File) == f -> exit
+
+// loggers: flush option first; the JSON option iff --json; writer and name are the arguments
+//@ func (*packetScanCmdOpts).getLogger
+//@   props C14
+//@   opaque log.FlushInterval, log.JSON, log.NewLogger
+//@   entry row plain: [call log.FlushInterval(_) as (fo) ; call log.NewLogger(w, name, bind_os) as (l, e)] when !o.json && len(os) == 1 && os[0] == fo && ret0 == l && ret1 == e -> exit
+//@   entry row json:  [call log.FlushInterval(_) as (fo) ; call log.JSON() as (jo) ; call log.NewLogger(w, name, bind_os) as (l, e)] when o.json && len(os) == 2 && os[0] == fo && os[1] == jo && ret0 == l && ret1 == e -> exit
+//@ func (*genericScanCmdOpts).getLogger
+//@   props C14 C08
+//@   opaque log.FlushInterval, log.JSON, log.NewLogger
+//@   entry row plain: [call log.FlushInterval(_) as (fo) ; call log.NewLogger(w, name, bind_os) as (l, e)] when !o.json && len(os) == 1 && os[0] == fo && ret0 == l && ret1 == e -> exit
+//@   entry row json:  [call log.FlushInterval(_) as (fo) ; call log.JSON() as (jo) ; call log.NewLogger(w, name, bind_os) as (l, e)] when o.json && len(os) == 2 && os[0] == fo && os[1] == jo && ret0 == l && ret1 == e -> exit
+
+// target of the application scans: the parsed subnet argument (nil with an address file and no argument) with the parsed port ranges
+//@ func (*genericScanCmdOpts).parseDstSubnet
+//@   props C02 C01
+//@   observe ip.ParseIPNet
+//@   entry row none:  [] when len(args) == 0 && len(o.ipFile) == 0 && ret0 == nil && ret1 == errNoDstIP -> exit
+//@   entry row file:  [] when len(args) == 0 && len(o.ipFile) != 0 && ret0 == nil && ret1 == nil -> exit
+//@   entry row parse: [call ip.ParseIPNet(pre(args[0])) as (n, e)] when len(args) != 0 && ret0 == n && ret1 == e -> exit
+//@ func (*ipScanCmdOpts).parseDstSubnet
+//@   props C02 C01
+//@   observe ip.ParseIPNet
+//@   entry row none:  [] when len(args) == 0 && len(o.ipFile) == 0 && ret0 == nil && ret1 == errNoDstIP -> exit
+//@   entry row file:  [] when len(args) == 0 && len(o.ipFile) != 0 && ret0 == nil && ret1 == nil -> exit
+//@   entry row parse: [call ip.ParseIPNet(pre(args[0])) as (n, e)] when len(args) != 0 && ret0 == n && ret1 == e -> exit
+//@ func (*genericScanCmdOpts).parseScanRange
+//@   props C02 C01
+//@   opaque (*genericScanCmdOpts).parseDstSubnet
+//@   entry row range: [call parseDstSubnet(_, args) as (n, e)] when ret1 == e && ret0 != nil && ret0.DstSubnet == n && ret0.Ports == o.portRanges -> exit
+
+// ports file: like the exclusion file - per line the text before '#', trimmed; blank lines skipped; every other
+// line parsed by parsePortRange and appended in order; the first error aborts with nothing
+//@ func parsePortsFile
+//@   props C18 C01
+//@   observe openFile, (*bufio.Scanner).Scan, (*bufio.Scanner).Text, strings.Index, strings.Trim, parsePortRange, Close
+//@   entry row noopen: [call openFile() as (in, e)] when e != nil && ret1 == e -> exit
+//@   entry row open:   [call openFile() as (in, e)] when e == nil -> loop 0
+//@   loop 0 invariant noerr: err == nil
+//@   loop 0 row eof:   [call Scan(_) as (more) ; call Close(_)] when !more && ret1 == nil && ret0 == result -> exit
+//@   loop 0 row blank: [call Scan(_) as (more) ; call Text(_) as (ln) ; call strings.Index(ln, "#") as (c) ; call strings.Trim(bind_t, " ") as (tr)]
+//@                        when more && ((c == -1 && t == ln) || (c != -1 && t == substr(ln, 0, c))) && len(tr) == 0 && len(result) == len(pre(result)) -> continue
+//@   loop 0 row bad:   [call Scan(_) as (more) ; call Text(_) as (ln) ; call strings.Index(ln, "#") as (c) ; call strings.Trim(bind_t, " ") as (tr) ; call parsePortRange(tr) as (pr, pe) ; call Close(_)]
+//@                        when more && ((c == -1 && t == ln) || (c != -1 && t == substr(ln, 0, c))) && len(tr) != 0 && pe != nil && len(ret0) == 0 && ret1 == pe -> exit
+//@   loop 0 row part:  [call Scan(_) as (more) ; call Text(_) as (ln) ; call strings.Index(ln, "#") as (c) ; call strings.Trim(bind_t, " ") as (tr) ; call parsePortRange(tr) as (pr, pe)]
+//@                        when more && ((c == -1 && t == ln) || (c != -1 && t == substr(ln, 0, c))) && len(tr) != 0 && pe == nil && len(result) == len(pre(result)) + 1 && result[len(pre(result))] == pr
+//@                          && (forall k int :: 0 <= k && k < len(pre(result)) ==> result[k] == pre(result[k])) -> continue
+
+// per-command raw options: the embedded parser must have succeeded; IP flags and payloads, when given, are parsed
+// once from the given text and stored
+//@ func (*ipScanCmdOpts).parseRawOptions
+//@   props C11 C18
+//@   opaque (*packetScanCmdOpts).parseRawOptions
+//@   observe net.ParseMAC
+//@   exit require base:  call parseRawOptions(_) as (e) when ret == nil then e == nil
+//@   exit require gwmac: call net.ParseMAC(bind_s) as (m, e) when len(pre(o.rawGatewayMAC)) > 0 && ret == nil then s == pre(o.rawGatewayMAC) && e == nil && o.gatewayMAC == m
+//@ func (*icmpCmdOpts).parseRawOptions
+//@   props C05 C18
+//@   opaque (*ipScanCmdOpts).parseRawOptions, parseIPFlags, parsePacketPayload
+//@   exit require base:    call parseRawOptions(_) as (e) when ret == nil then e == nil
+//@   exit require ipflags: call parseIPFlags(bind_s) as (f, e) when len(pre(o.rawIPFlags)) > 0 && ret == nil then s == pre(o.rawIPFlags) && e == nil && o.ipFlags == f
+//@   exit require payload: call parsePacketPayload(bind_s) as (p, e) when len(pre(o.rawICMPPayload)) > 0 && ret == nil then s == pre(o.rawICMPPayload) && e == nil && o.icmpPayload == p
+//@ func (*udpCmdOpts).parseRawOptions
+//@   props C05 C18
+//@   opaque (*ipPortScanCmdOpts).parseRawOptions, parseIPFlags, parsePacketPayload
+//@   exit require base:    call parseRawOptions(_) as (e) when ret == nil then e == nil
+//@   exit require ipflags: call parseIPFlags(bind_s) as (f, e) when len(pre(o.rawIPFlags)) > 0 && ret == nil then s == pre(o.rawIPFlags) && e == nil && o.ipFlags == f
+//@   exit require payload: call parsePacketPayload(bind_s) as (p, e) when len(pre(o.rawUDPPayload)) > 0 && ret == nil then s == pre(o.rawUDPPayload) && e == nil && o.udpPayload == p
+//@ func (*tcpFlagsCmdOpts).parseRawOptions
+//@   props C05 C18
+//@   opaque (*ipPortScanCmdOpts).parseRawOptions, parseTCPFlags
+//@   exit require base:  call parseRawOptions(_) as (e) when ret == nil then e == nil
+//@   exit require flags: call parseTCPFlags(bind_s) as (f, e) when ret == nil then s == pre(o.rawTCPFlags) && e == nil && o.tcpFlags == f
+//@ func (*dockerCmdOpts).parseRawOptions
+//@   props C10 C18
+//@   opaque (*genericScanCmdOpts).parseRawOptions
+//@   exit require base: call parseRawOptions(_) as (e) when ret == nil then e == nil
+//@   ensures proto: ret == nil ==> (o.proto == "http" || o.proto == "https")
+//@ func (*elasticCmdOpts).parseRawOptions
+//@   props C10 C18
+//@   opaque (*genericScanCmdOpts).parseRawOptions
+//@   exit require base: call parseRawOptions(_) as (e) when ret == nil then e == nil
+//@   ensures proto: ret == nil ==> (o.proto == "http" || o.proto == "https")
+
+// ARP cache source and gateway MAC (C11): an explicit --gwmac wins; otherwise the cache entry of the default
+// gateway of the chosen interface; stdin cannot feed both the cache and the address list
+//@ func (*ipScanCmdOpts).isARPCacheFromStdin
+//@   props C11
+//@   ensures ret <==> (len(o.arpCacheFile) == 0 || o.arpCacheFile == "-")
+//@ func (*ipScanCmdOpts).validateARPStdin
+//@   props C11
+//@   ensures (ret != nil) <==> ((len(o.arpCacheFile) == 0 || o.arpCacheFile == "-") && o.ipFile == "-")
+//@ func (*ipScanCmdOpts).getGatewayMAC
+//@   props C11
+//@   observe ip.GetDefaultGatewayIP, To4, Get
+//@   entry row given:  [] when o.gatewayMAC != nil && ret0 == o.gatewayMAC && ret1 == nil -> exit
+//@   entry row nogw:   [call ip.GetDefaultGatewayIP(iface) as (g, e)] when o.gatewayMAC == nil && e != nil && ret1 == e -> exit
+//@   entry row lookup: [call ip.GetDefaultGatewayIP(iface) as (g, e) ; call To4(g) as (g4) ; call Get(cache, g4) as (m)] when o.gatewayMAC == nil && e == nil && ret0 == m && ret1 == nil -> exit
+//@ func (*ipScanCmdOpts).parseARPCache
+//@   props C11
+//@   observe arp.FillCache, Close
+//@   opaque (*ipScanCmdOpts).openARPCache, arp.NewCache
+//@   entry row noopen: [call openARPCache(_) as (r, e)] when e != nil && ret1 == e -> exit
+//@   entry row fill:   [call openARPCache(_) as (r, e) ; call arp.NewCache() as (c) ; call arp.FillCache(c, r) as (fe) ; call Close(r)] when e == nil && ret0 == c && ret1 == fe -> exit
+//@ func (*ipPortScanCmdOpts).parseOptions
+//@   props C01 C03
+//@   opaque (*ipScanCmdOpts).parseOptions
+//@   entry row bad: [call parseOptions(_, scanName, args) as (e)] when e != nil && ret == e -> exit
+//@   entry row ok:  [call parseOptions(_, scanName, args) as (e)] when e == nil && ret == nil && o.scanRange.Ports == o.portRanges -> exit
+
+// tcp --flags: no flags -> the SYN scan with the same options; otherwise one filler option per named flag, in
+// order, each the table entry of that flag (absent -> nil); scan name "tcpflags"; all-pass reply predicate; all flags printed
+//@ func newTCPFlagsCmd$1
+//@   props C03 C05 C15 C16 C17 C01
+//@   observe newTCPScanMethod, startPortScanEngine, startScan
+//@   opaque (*tcpFlagsCmdOpts).parseRawOptions, (*ipPortScanCmdOpts).parseOptions, newTCPSYNCmdOpts
+//@   entry row badraw: [call parseRawOptions(_) as (e)] when e != nil && ret == e -> exit
+//@   entry row syn:    [call parseRawOptions(_) as (e) ; call newTCPSYNCmdOpts(_) as (so) ; call startScan(bind_so2, _, args) as (se)] when e == nil && so2 == so && atcall(so2, len(c.opts.tcpFlags) == 0) && ret == se -> exit
+//@   entry row badopt: [call parseRawOptions(_) as (e) ; call parseOptions(_, "tcpflags", args) as (e2)] when e == nil && len(c.opts.tcpFlags) != 0 && e2 != nil && ret == e2 -> exit
+//@   entry row flags:  [call parseRawOptions(_) as (e) ; call parseOptions(_, "tcpflags", args) as (e2)] when e == nil && len(c.opts.tcpFlags) != 0 && e2 == nil -> loop 0
+//@   loop 0 row add:   [] when len(opts) == len(pre(opts)) + 1
+//@                        && ((mapin(tcpPacketFlagOptions, flag) && opts[len(pre(opts))] == mapget(tcpPacketFlagOptions, flag)) || (!mapin(tcpPacketFlagOptions, flag) && opts[len(pre(opts))] == nil))
+//@                        && (forall k int :: 0 <= k && k < len(pre(opts)) ==> opts[k] == pre(opts[k])) -> continue
+//@   loop 0 row scan:  [call newTCPScanMethod(_, _, bind_mo) as (m) ; call startPortScanEngine(_, bind_cfg) as (se)]
+//@                        when ret == se
+//@                           && atcall(mo, len(mo) == 4
+//@                           && closureof(mo[0], "withTCPScanName$1") && capt(mo[0], "scanName") == "tcpflags"
+//@                           && closureof(mo[1], "withTCPPacketFillerOptions$1") && len(capt(mo[1], "opts")) == len(opts)
+//@                           && (forall k int :: 0 <= k && k < len(opts) ==> capt(mo[1], "opts")[k] == opts[k])
+//@                           && closureof(mo[2], "withTCPPacketFilterFunc$1") && capt(mo[2], "filter") == tcp.TrueFilter
+//@                           && closureof(mo[3], "withTCPPacketFlags$1") && capt(mo[3], "packetFlags") == tcp.AllFlags)
+//@                           && atcall(cfg, isptr(cfg.scanMethod, tcp.ScanMethod) && asptr(cfg.scanMethod, tcp.ScanMethod) == m && cfg.bpfFilter == tcp.BPFFilter
+//@                           && cfg.rateCount == c.opts.rateCount && cfg.rateWindow == c.opts.rateWindow && cfg.vpnMode == c.opts.vpnMode
+//@                           && cfg.logger == c.opts.logger && cfg.exitDelay == c.opts.exitDelay
+//@                           && cfg.scanRange.DstSubnet == c.opts.scanRange.DstSubnet && cfg.scanRange.Interface == c.opts.scanRange.Interface && cfg.scanRange.SrcIP == c.opts.scanRange.SrcIP
+//@                           && cfg.scanRange.SrcMAC == c.opts.scanRange.SrcMAC && cfg.scanRange.Ports == c.opts.scanRange.Ports) -> exit
+
+// the flag-name table built at package initialisation: each of the nine TCP flag names maps to the filler option of
+// exactly that flag, and nothing else is in the table
+//@ func init
+//@   props C05 C18
+//@   ensures syn: mapin(tcpPacketFlagOptions, "syn") && closureof(mapget(tcpPacketFlagOptions, "syn"), "WithSYN$1")
+//@   ensures ack: mapin(tcpPacketFlagOptions, "ack") && closureof(mapget(tcpPacketFlagOptions, "ack"), "WithACK$1")
+//@   ensures fin: mapin(tcpPacketFlagOptions, "fin") && closureof(mapget(tcpPacketFlagOptions, "fin"), "WithFIN$1")
+//@   ensures rst: mapin(tcpPacketFlagOptions, "rst") && closureof(mapget(tcpPacketFlagOptions, "rst"), "WithRST$1")
+//@   ensures psh: mapin(tcpPacketFlagOptions, "psh") && closureof(mapget(tcpPacketFlagOptions, "psh"), "WithPSH$1")
+//@   ensures urg: mapin(tcpPacketFlagOptions, "urg") && closureof(mapget(tcpPacketFlagOptions, "urg"), "WithURG$1")
+//@   ensures ece: mapin(tcpPacketFlagOptions, "ece") && closureof(mapget(tcpPacketFlagOptions, "ece"), "WithECE$1")
+//@   ensures cwr: mapin(tcpPacketFlagOptions, "cwr") && closureof(mapget(tcpPacketFlagOptions, "cwr"), "WithCWR$1")
+//@   ensures ns:  mapin(tcpPacketFlagOptions, "ns") && closureof(mapget(tcpPacketFlagOptions, "ns"), "WithNS$1")
